@@ -78,7 +78,7 @@ def DtSpelling.Valid (resolve : List Char → List Char → List Char) (ctx : Ct
   | .abs iri => (∀ c ∈ iri, plainChar c ∧ c ≠ '>') ∧ (∀ b, ctx.base = some b → resolve b iri = iri)
   | .pname pre loc => preOk pre ∧ locOk pre loc ∧ (∃ ns, lookup ctx.prefixes pre = some ns ∧
       (∀ c ∈ ns ++ loc, c ≠ '"') ∧ (∀ b, ctx.base = some b → resolve b (ns ++ loc) = ns ++ loc)) ∧
-      (∀ c ∈ loc, c ≠ '>') ∧ (pre ++ ':' :: loc).head? ≠ some '<'
+      (∀ c ∈ loc, c ≠ '>') ∧ (pre ++ ':' :: loc).head? ≠ some '<' ∧ ['/', '/'].isPrefixOf loc = false
 
 def LitSuffix.Valid (resolve : List Char → List Char → List Char) (ctx : Ctx) : LitSuffix → Prop
   | .none => True
